@@ -7,13 +7,18 @@
 (*             out    |-> abstract names of the files written,              *)
 (*             bad    |-> set of comparisons (file vs library result of the  *)
 (*                        specification's `calls`) that failed,             *)
-(*             checked |-> set of files that were compared ]]                *)
+(*             checked |-> set of files that were compared,                  *)
+(*             solver |-> fc solver the real front end selects ]]            *)
 (* The machine is run on (cmd, inp, s); at exit                              *)
 (*   ImplStatus    the command succeeded exactly when the machine does      *)
 (*   ImplOutputs   it wrote exactly the machine's output files              *)
 (*   ImplFaithful  every file equals, at its printed precision, what the    *)
 (*                 library calls of the machine return                      *)
 (*   ImplCompared  every data file the machine predicts was compared        *)
+(*   ImplSolver    phonopy_script._get_fc_calculator_params, called on the  *)
+(*                 real settings, selects the solver of the specification   *)
+(*                 (symfc is phonopy-load's default; it is not installed    *)
+(*                 here, so this rule is checked at the decision level)     *)
 EXTENDS CLIWorkflow
 
 CONSTANT WEvents
@@ -33,6 +38,7 @@ Ok == status = "ok"
 ImplStatus == AtExit => (Ok <=> wev.obs.status = "ok") /\ wev.obs.status # "crash"
 ImplOutputs == AtExit => wev.obs.out = out
 ImplFaithful == AtExit => wev.obs.bad = {}
+ImplSolver == wev.obs.solver = Solver
 (* log files, structure files and plots are not data outputs *)
 DataFiles == out \ {"SUPERCELLS"}
 ImplCompared == (AtExit /\ Ok) => DataFiles \subseteq wev.obs.checked
